@@ -566,6 +566,4 @@ def explore(ctx):
 
 def replay(record):
     imports()
-    acc = core.Acc()
-    run_case(record['case'], acc, 0)
-    return [v['record'] for v in acc.violations.values()]
+    return core.replay_case(run_case, record)
